@@ -116,34 +116,45 @@ THEOREMS = [
 ]
 TRUSTED = [
     "Lean 4.33.0 kernel; axioms limited to propext, Classical.choice, Quot.sound (audited by #print axioms on every run)",
-    "hand transcription of intersection, difference, update_recursively, update_nested (lena/context/functions.py) into "
-    "LenaModel/Model/C07.lean on slot vectors (Model/Val.lean) and, with object identities, into Model/C07Tok.lean; "
-    "validated by this correspondence check (values, exception classes, and the id() pattern of the results)",
+    "hand transcription of intersection, difference, update_recursively (all argument forms), update_nested (with its "
+    "nested_dicts test), str_to_dict after the split (lena/context/functions.py), Zip._create_context, group_plots, "
+    "_update_with_group, LenaSplit._get_context into LenaModel/Model/C07.lean + C07Ext.lean on slot vectors (Model/Val.lean) "
+    "and, with object identities and a write log, into Model/C07Tok.lean + C07Mut.lean; validated by this correspondence "
+    "check (values, exception classes, the id() pattern of results and arguments after the call, the objects whose items "
+    "really changed)",
     "the slot-vector reading of dictionaries: iteration order and mutation-during-iteration are not modelled (the loops "
     "of the four functions read and write only the current key)",
-    "the specification vocabulary (contained, diffSpec, untouchedL, getPath, depthL, nestDepth) means what its Python "
-    "reference in harness/props/c07.py means: compared on every generated case",
+    "the specification vocabulary (contained, diffSpec, untouchedL, getPath, depthL, nestDepth, mnV, toksV, dictToksV, subsV, "
+    "eraseV) means what its Python reference in harness/props/c07.py means: compared on every generated case",
     "JSON line protocol encoders (harness/props/c07.py, drivers/C07.lean)",
 ]
 ASSUMPTIONS = [
     "leaves are observed only through ==, truthiness and isinstance(., dict): a leaf is modelled by its class under == "
     "(theorems are generic in the leaf type and in the truthiness of leaves); lists are leaves",
     "copy.deepcopy is the identity on values (value model) and allocates new objects for every mutable object (token model); "
-    "'does not change its arguments' is checked on the real code by before/after snapshots, 'deep copy' by id() graphs",
-    "a dictionary is never equal to a dictionary strictly nested in it (finite values): the `d in nested_dicts` test of "
-    "update_nested is false",
-    "update_recursively with a string `other` (str_to_dict) belongs to C08 and is not modelled here",
+    "an assignment `x[key] = v` changes the object x only (write-log model); 'does not change its arguments' is in addition "
+    "checked on the real code by before/after snapshots, object by object",
+    "a self-referential `other` of update_nested is not a value of the model (its LenaValueError is exercised, and the test that "
+    "raises it is proved dead for finite values)",
+    "str.split('.') is trusted: str_to_dict is modelled from its parts on; which strings are malformed beyond that is C08's",
+    "output.changed holds hashable scalars (as documented: a boolean) in the group_plots / _update_with_group cases",
 ]
 RULE = ("pair cases (a, b): intersection(a,b), intersection(b,a), intersection(a,a), difference(a,b), "
-        "update_recursively(intersection, difference) for every level in {-1,0,1,2,3}, update_recursively(copy(a), b), and the "
-        "identity pattern (id()) of the results; exhaustive: all pairs of dictionaries over keys {a,b} of depth <= 2 with one "
-        "falsy and one truthy leaf chosen by the seed (quick: 144^2 pairs) or three leaves (thorough: 400^2 pairs), all pairs over "
-        "keys {a,b,c} of depth 1 with three leaves (64^2), all triples of depth-1 dictionaries over {a,b} x 5 levels (with all 6 "
-        "permutations and both nestings); sampled per seed (quick / thorough): 2500 / 60000 pairs and 2500 / 40000 tuples of 2-4 "
-        "dictionaries over 3 keys up to depth 3 with the whole leaf palette (0, False, None, '', [], 1, True, 'x', [1], 2, 'y', "
-        "[{}]), 60% of them neighbours of each other, levels also -2 and 4; 1500 / 15000 update_nested calls with key chains of "
-        "length 0-3 ending in an absent key or a non-dictionary; 400 / 3000 calls with non-dictionary arguments.  Non-trivial: "
-        "the arguments are non-empty dictionaries that are not all equal (update_nested: d has the key).")
+        "update_recursively(intersection, difference) for every level in {-1,0,1,2,3}, update_recursively(copy(a), b), the "
+        "identity pattern (id()) of the results and, for update_recursively, of d and other afterwards plus the set of objects "
+        "whose items changed; exhaustive: all pairs of dictionaries over keys {a,b} of depth <= 2 with one falsy and one truthy "
+        "leaf chosen by the seed (quick: 144^2 pairs) or three leaves (thorough: 400^2 pairs), all pairs over keys {a,b,c} of "
+        "depth 1 with three leaves (64^2), all triples of depth-1 dictionaries over {a,b} x 5 levels (all 6 permutations, both "
+        "nestings); sampled per seed (quick / thorough): 2500 / 60000 pairs and 2500 / 40000 tuples of 2-4 dictionaries over 3 "
+        "keys up to depth 3 with the whole leaf palette (0, False, None, '', [], 1, True, 'x', [1], 2, 'y', [{}]), 60% of them "
+        "neighbours of each other, levels also -2 and 4; 416 / 10000 narrow pairs of depth 4-6 with levels -1,-2,1,2,4,5,6; "
+        "1500 / 15000 update_nested calls with key chains of length 0-3 ending in an absent key or a non-dictionary (objects "
+        "after the call and write log compared), 4 self-referential ones; 400 / 3000 calls with non-dictionary arguments, "
+        "100 / 750 with keyword arguments; 600 / 8000 each of: update_recursively with a string / dictionary / other `other` and "
+        "with `value`; Zip over 1-4 stub sources (fill-compute or fill-request, optional namedtuple fields, 40% with a second "
+        "tuple of values through the same Zip object); group_plots and Split._get_context over branches built from real "
+        "SetContext elements; _update_with_group directly and through MapGroup.run.  Non-trivial: the arguments are non-empty "
+        "dictionaries that are not all equal (update_nested: d has the key).")
 CASE_TIMEOUT = 10
 
 LEVELS = [-1, 0, 1, 2, 3]
@@ -1851,8 +1862,10 @@ def shrink(case):
 
 
 # ---- MANIFEST texts ------------------------------------------------------------------------
-LEVEL_TEXT = ("Lean 4 theorems about a transcribed model of intersection/difference/update_recursively/update_nested on "
-              "nested dictionaries of any width and depth, any leaf type and every level (no bound); the model is tied to "
+LEVEL_TEXT = ("Lean 4 theorems about a transcribed model of intersection/difference/update_recursively/update_nested and of "
+              "their callers (Zip._create_context, group_plots, _update_with_group, LenaSplit._get_context) on "
+              "nested dictionaries of any width and depth, any leaf type and every level (no bound), including which objects "
+              "are created, shared and written to; the model is tied to "
               "/repo by a correspondence check (exhaustive over small alphabets, sampled over 3 keys / depth 3 / the whole "
               "leaf palette) and the laws themselves are evaluated on the real code as a direct oracle.")
 LEVEL_NOTE = ("Trusted: Lean kernel (+ propext, Classical.choice, Quot.sound), the hand transcription validated by the "
